@@ -6,9 +6,26 @@ SCRATCH = os.environ.get("VERIF_SCRATCH", "/dev/shm")
 NPROC = int(os.environ.get("VERIF_NPROC", str(min(16, os.cpu_count() or 4))))
 
 
+def unmount_below(base):
+    """lazily unmount any mount point under base (sandboxes may hold a second tmpfs)"""
+    try:
+        pts = []
+        for line in open("/proc/self/mounts", "rb").read().split(b"\n"):
+            f = line.split(b" ")
+            if len(f) > 1:
+                mp = f[1].decode("unicode_escape", "replace") if b"\\" in f[1] else f[1].decode("utf-8", "surrogateescape")
+                if mp.startswith(base + "/"):
+                    pts.append(mp)
+        for mp in sorted(pts, key=len, reverse=True):
+            subprocess.run(["umount", "-l", mp], stdout=subprocess.DEVNULL, stderr=subprocess.DEVNULL)
+    except Exception:
+        pass
+
+
 class Sim:
     def __init__(self, tag):
         self.base = os.path.join(SCRATCH, "xcpsim.%d.%s" % (os.getpid(), tag))
+        unmount_below(self.base)
         shutil.rmtree(self.base, ignore_errors=True)
         os.makedirs(self.base, exist_ok=True)
         self.root = os.path.join(self.base, "sb")
@@ -43,6 +60,7 @@ class Sim:
             except Exception:
                 self.proc.kill()
             self.proc = None
+        unmount_below(self.base)
         shutil.rmtree(self.base, ignore_errors=True)
 
 
@@ -90,4 +108,5 @@ class Pool:
             if d.startswith("xcpsim."):
                 pid = d.split(".")[1]
                 if not os.path.exists("/proc/%s" % pid):
+                    unmount_below(os.path.join(SCRATCH, d))
                     shutil.rmtree(os.path.join(SCRATCH, d), ignore_errors=True)
